@@ -182,3 +182,21 @@ Proof.
           [ rewrite gen_pc_append_comma; reflexivity
           | destruct (LevelNames.short_tag tags l2s lvl width) as [t|]; [ rewrite gen_pc_append_byte | ]; reflexivity ] ].
 Qed.
+
+(* ---- Entry.printPC ---- *)
+Lemma gen_print_pc fas fai fps fpi fap fwc fra hex safe flags prov src pc noColor json buf :
+  Layout.print_pc fas fai fps fpi fap fwc fra hex safe flags prov src pc noColor json buf =
+  print_pc_ref fas fai fps fpi fap fwc
+    (fun b => Escapes.string_key hex safe json b [x63;x61;x6c;x6c;x65;x72])
+    (Layout.checked_funcname fra flags prov (src_function src)) [x1b;x5b;x30;x6d] src noColor json buf.
+Proof.
+  first [ reflexivity
+        | unfold Layout.print_pc, print_pc_ref; cbv zeta; destruct noColor;
+          [ rewrite gen_pc_append_comma; destruct json;
+            [ match goal with |- context [Escapes.string_key ?a ?b ?c ?d ?e] => destruct (Escapes.string_key a b c d e) as [b1|] end;
+              [ rewrite gen_pc_append_colon, !gen_pc_append_byte, !gen_pc_append_comma, gen_pc_append_byte; reflexivity | reflexivity ]
+            | rewrite !gen_pc_append_comma; reflexivity ]
+          | rewrite !gen_pc_append_byte;
+            destruct (Layout.checked_funcname fra flags prov (src_function src)) as [nm|]; [ | reflexivity ];
+            rewrite GenColorP.gen_echo_reset; reflexivity ] ].
+Qed.
